@@ -215,6 +215,525 @@ def churn_program(seq, K):
             "fn main() -> int {\n    (println (work 1 %d))\n    return 0\n}\nshadow main { assert true }\n" % K)
 
 
+# ----------------------------------------------------------------------------- layers P / T: value shapes
+# Element / payload kinds that live on the VM heap (plus `lit` and `int` as controls).  Every value is built at
+# run time from an integer seed; py(seed) is the text the kind's show function must print for it.
+def _S(i):
+    return "str-number-%d" % i
+
+
+class Kind(object):
+    def __init__(self, name, T, mk, sh, py, heap=True):
+        self.name, self.T, self.mk_fn, self.sh, self.py, self.heap = name, T, mk, sh, py, heap
+
+    def mk(self, seed):
+        return "(%s %s)" % (self.mk_fn, seed)
+
+
+KINDS = [
+    Kind("str", "string", "mkstr", "shstr", _S),
+    Kind("lit", "string", "mklit", "shstr", lambda i: ("lit-zero", "lit-one", "lit-two")[i % 3]),
+    Kind("arr", "array<string>", "mkarr", "sharr", lambda i: _S(i) + "in-%d" % i),
+    Kind("rec", "Rec", "mkrec", "shrec", lambda i: _S(i) + str(i)),
+    Kind("deep", "Deep", "mkdeep", "shdeep", lambda i: _S(i) + "deep-%d" % i),
+    Kind("wun", "W", "mkw", "shw", lambda i: (_S(i) if i % 2 == 0 else "err-%d%d" % (i, i)) + str(i)),
+    Kind("clo", "fn(int) -> string", "mkclo", None, lambda i: _S(i) + "7"),
+    Kind("tup", "(string, int)", "mktup", "shtup", lambda i: _S(i) + str(i)),
+    Kind("res", "Res", "mkres", "unres", lambda i: (_S(i) if i % 2 == 0 else "err-%d%d" % (i, i))),
+    Kind("int", "int", "mkint", "shint", lambda i: str(i * 3), heap=False),
+]
+KIND = dict((k.name, k) for k in KINDS)
+
+PRE2 = """struct Rec { name: string, n: int }
+struct Deep { inner: Rec, s: string }
+union Res { Ok { v: string }, Err { code: int, msg: string } }
+struct W { r: Res, k: int }
+fn mkstr(i: int) -> string { return (+ "str-number-" (int_to_string i)) }
+fn mklit(i: int) -> string {
+    if (== (% i 3) 0) { return "lit-zero" } else {}
+    if (== (% i 3) 1) { return "lit-one" } else {}
+    return "lit-two"
+}
+fn mkarr(i: int) -> array<string> { return [(mkstr i), (+ "in-" (int_to_string i))] }
+fn mkrec(i: int) -> Rec { return Rec { name: (mkstr i), n: i } }
+fn mkdeep(i: int) -> Deep { return Deep { inner: (mkrec i), s: (+ "deep-" (int_to_string i)) } }
+fn mkres(i: int) -> Res {
+    if (== (% i 2) 0) { return Res.Ok { v: (mkstr i) } } else {}
+    return Res.Err { code: i, msg: (+ "err-" (int_to_string i)) }
+}
+fn mkw(i: int) -> W { return W { r: (mkres i), k: i } }
+fn mkclo(i: int) -> fn(int) -> string {
+    let s: string = (mkstr i)
+    fn get(j: int) -> string { return (+ s (int_to_string j)) }
+    return get
+}
+fn mktup(i: int) -> (string, int) { return ((mkstr i), i) }
+fn mkint(i: int) -> int { return (* i 3) }
+fn shstr(x: string) -> string { return x }
+fn sharr(x: array<string>) -> string { return (+ (at x 0) (at x 1)) }
+fn shrec(x: Rec) -> string { return (+ x.name (int_to_string x.n)) }
+fn shdeep(x: Deep) -> string { return (+ x.inner.name x.s) }
+fn unres(r: Res) -> string {
+    match r {
+        Ok(x) => { return x.v }
+        Err(e) => { return (+ e.msg (int_to_string e.code)) }
+    }
+    return ""
+}
+fn shw(x: W) -> string { return (+ (unres x.r) (int_to_string x.k)) }
+fn shtup(x: (string, int)) -> string { return (+ x.0 (int_to_string x.1)) }
+fn shint(x: int) -> string { return (int_to_string x) }
+fn churn(i: int) -> int {
+    /* allocate and drop objects of the size classes the cases use, so that freed memory is handed out again */
+    let mut total: int = 0
+    let mut j: int = 0
+    while (< j 6) {
+        let s: string = (+ "STR-NUMBER-" (int_to_string (+ i j)))
+        let t: string = (+ s (int_to_string j))
+        let v: array<string> = [s, (+ "IN-" (int_to_string (+ i j)))]
+        let r: Rec = Rec { name: (+ "DEEP-" (int_to_string (+ i j))), n: j }
+        set total (+ total (+ (str_length t) (+ (array_length v) r.n)))
+        set j (+ j 1)
+    }
+    return total
+}
+"""
+
+
+def churn_py(i):
+    return sum(len("STR-NUMBER-%d%d" % (i + j, j)) + 2 + j for j in range(6))
+
+
+def kind_helpers(k):
+    """per-kind helper functions / types, emitted only into the programs that use the kind"""
+    T, n = k.T, k.name
+    return {
+        "id": "fn id_%s(x: %s) -> %s { return x }\n" % (n, T, T),
+        "keep": "fn keep_%s(x: %s) -> bool { return true }\n" % (n, T),
+        "drop": "fn drop_%s(x: %s) -> bool { return false }\n" % (n, T),
+        "ucat": ("fn ucat_%s(a: array<%s>, b: array<%s>) -> array<%s> {\n"
+                 "    let mut r: array<%s> = (array_slice a 0 (array_length a))\n"
+                 "    let mut j: int = 0\n"
+                 "    while (< j (array_length b)) {\n        set r (array_push r (at b j))\n        set j (+ j 1)\n    }\n"
+                 "    return r\n}\n") % (n, T, T, T, T),
+        "ints": ("fn ints(i: int, n: int) -> array<int> {\n    let mut r: array<int> = []\n"
+                 "    for j in (range i (+ i n)) { set r (array_push r j) }\n    return r\n}\n"),
+        "H": ("struct H_%s { pad: int, v: %s, tail: string }\n"
+              "fn mkh_%s(i: int) -> H_%s { return H_%s { pad: i, v: %s, tail: (+ \"tail-\" (int_to_string i)) } }\n") % (n, T, n, n, n, k.mk("i")),
+        "N": ("struct N_%s { h: H_%s, z: string }\n"
+              "fn mkn_%s(i: int) -> N_%s { return N_%s { h: (mkh_%s i), z: (+ \"zed-\" (int_to_string i)) } }\n") % (n, n, n, n, n, n),
+        "t0": "fn mkt0_%s(i: int) -> (%s, int) { return (%s, i) }\n" % (n, T, k.mk("i")),
+        "t1": "fn mkt1_%s(i: int) -> (int, %s) { return (i, %s) }\n" % (n, T, k.mk("i")),
+        "U": ("union U_%s { A { v: %s }, B { code: int, w: %s } }\n"
+              "fn mku_%s(i: int) -> U_%s {\n"
+              "    if (== (%% i 2) 0) { return U_%s.A { v: %s } } else {}\n"
+              "    return U_%s.B { code: i, w: %s }\n}\n") % (n, T, T, n, n, n, k.mk("i"), n, k.mk("i")),
+    }
+
+
+def show_stmts(k, expr, uniq):
+    """statements printing the value of `expr` (of kind k) through the kind's show function"""
+    if k.name == "clo":
+        return ["let g%s: fn(int) -> string = %s" % (uniq, expr), "(println (g%s 7))" % uniq]
+    return ["(println (%s %s))" % (k.sh, expr)]
+
+
+# -- layer P: array-producing operation x element kind x derived value x which of the two dies first
+STRLIKE = ("str", "lit")
+
+
+def _elems(k, i, n):
+    return [k.py(i + j) for j in range(n)]
+
+
+def _lit_expr(k, seed, n):
+    """array literal with n run-time built elements seed .. seed+n-1 (n == 0: empty array through array_new)"""
+    if n == 0:
+        return "(array_new 0 %s)" % k.mk(seed)
+    return "[" + ", ".join(k.mk("(+ %s %d)" % (seed, j)) for j in range(n)) + "]"
+
+
+# producer: name -> (kinds or None = all, body(k, n) -> statements ending in `return`, py(k, i, n) -> shown elements,
+#                    helper keys needed)
+def _prod_newpush(k, n):
+    return (["let mut v: array<%s> = (array_new 0 %s)" % (k.T, k.mk("(+ i 70)"))] +
+            ["set v (array_push v %s)" % k.mk("(+ i %d)" % j) for j in range(n)] + ["return v"])
+
+
+def _prod_rm(k, n):
+    return ["let mut v: array<%s> = %s" % (k.T, _lit_expr(k, "(- i 1)", n + 1)), "(array_remove_at v 0)", "return v"]
+
+
+def _prod_set(k, n):
+    return (["let mut v: array<%s> = %s" % (k.T, _lit_expr(k, "(+ i 60)", n))] +
+            ["(array_set v %d %s)" % (j, k.mk("(+ i %d)" % j)) for j in range(n)] + ["return v"])
+
+
+def _prod_pop(k, n):
+    return ["let mut v: array<%s> = %s" % (k.T, _lit_expr(k, "i", n + 1)),
+            "(array_pop v)", "return v"]
+
+
+def _prod_loop(k, n):      # `range` only exists as the range of a for loop: the loop-built array is its array form
+    return ["let mut v: array<%s> = []" % k.T, "for j in (range 0 %d) { set v (array_push v %s) }" % (n, k.mk("(+ i j)")), "return v"]
+
+
+PRODUCERS = {
+    "lit":     (None, lambda k, n: ["return %s" % _lit_expr(k, "i", n)], _elems, ()),
+    "newpush": (None, _prod_newpush, _elems, ()),
+    "fill":    (None, lambda k, n: ["return (array_new %d %s)" % (n, k.mk("i"))], lambda k, i, n: [k.py(i)] * n, ()),
+    "map_id":  (None, lambda k, n: ["return (map %s id_%s)" % (_lit_expr(k, "i", n), k.name)], _elems, ("id",)),
+    "map_new": (None, lambda k, n: ["return (map (ints i %d) %s)" % (n, k.mk_fn)], _elems, ("ints",)),
+    "filter":  (None, lambda k, n: ["return (filter %s keep_%s)" % (_lit_expr(k, "i", n), k.name)], _elems, ("keep",)),
+    "ucat":    (None, lambda k, n: ["return (ucat_%s %s %s)" % (k.name, _lit_expr(k, "i", n // 2), _lit_expr(k, "(+ i %d)" % (n // 2), n - n // 2))], _elems, ("ucat",)),
+    "rm":      (None, _prod_rm, _elems, ()),
+    "set":     (None, _prod_set, _elems, ()),
+    "pop":     (None, _prod_pop, _elems, ()),
+    "slice":   (None, lambda k, n: ["return (array_slice %s 1 %d)" % (_lit_expr(k, "(- i 1)", n + 2), n)], _elems, ()),
+    "ew_as":   (STRLIKE, lambda k, n: ["return (+ %s \"+z\")" % _lit_expr(k, "i", n)], lambda k, i, n: [x + "+z" for x in _elems(k, i, n)], ()),
+    "ew_sa":   (STRLIKE, lambda k, n: ["return (+ \"z+\" %s)" % _lit_expr(k, "i", n)], lambda k, i, n: ["z+" + x for x in _elems(k, i, n)], ()),
+    "ew_aa":   (STRLIKE, lambda k, n: ["return (+ %s %s)" % (_lit_expr(k, "i", n), _lit_expr(k, "(+ i 20)", n))],
+                lambda k, i, n: [x + y for x, y in zip(_elems(k, i, n), _elems(k, i + 20, n))], ()),
+    "loop":    (None, _prod_loop, _elems, ()),
+    "ew_int":  (("int",), lambda k, n: ["return (+ (array_new %d (mkint i)) (map (ints 0 %d) mkint))" % (n, n)],
+                lambda k, i, n: [str(i * 3 + 3 * j) for j in range(n)], ("ints",)),
+}
+
+
+def producer_fn(pname, k, n):
+    body = PRODUCERS[pname][1](k, n)
+    return "fn p_%s_%s_%d(i: int) -> array<%s> {\n%s}\n" % (pname, k.name, n, k.T, "".join("    %s\n" % l for l in body))
+
+
+# derived value: name -> (kinds or None, expression over the source expression `v`, py(k, shown elements) -> shown
+#                         elements of the derived array, helper keys, evaluates `v` more than once?)
+def _sl(s, l):
+    return lambda k, e: e[s:s + l] if l is not None else e[s:]
+
+
+DERIVED = {
+    "alias":     (None, "{v}", lambda k, e: e, ()),
+    "slice_all": (None, "(array_slice {v} 0 99)", lambda k, e: e, ()),
+    "slice_hd":  (None, "(array_slice {v} 0 1)", lambda k, e: e[:1], ()),
+    "slice_tl":  (None, "(array_slice {v} 1 99)", lambda k, e: e[1:], ()),
+    "slice_mid": (None, "(array_slice {v} 1 1)", lambda k, e: e[1:2], ()),
+    "slice_e":   (None, "(array_slice {v} 1 0)", lambda k, e: [], ()),
+    "map_id":    (None, "(map {v} id_{k})", lambda k, e: e, ("id",)),
+    "filt_all":  (None, "(filter {v} keep_{k})", lambda k, e: e, ("keep",)),
+    "filt_none": (None, "(filter {v} drop_{k})", lambda k, e: [], ("drop",)),
+    "ucat":      (None, "(ucat_{k} {v} {v})", lambda k, e: e + e, ("ucat",)),
+    "nest":      (None, "(at [{v}, {v}] 1)", lambda k, e: e, ()),
+    "ew_as":     (STRLIKE, "(+ {v} \"+y\")", lambda k, e: [x + "+y" for x in e], ()),
+    "ew_sa":     (STRLIKE, "(+ \"y+\" {v})", lambda k, e: ["y+" + x for x in e], ()),
+    "ew_aa":     (STRLIKE, "(+ {v} {v})", lambda k, e: [x + x for x in e], ()),
+    "ew_int":    (("int",), "(+ {v} 1)", lambda k, e: [str(int(x) + 1) for x in e], ()),
+}
+
+# which value dies first / how: see p_case
+ORDERS = ("der_frame", "src_frame", "der_set", "src_set", "src_temp", "both")
+
+
+def read_array(k, var, elems, uniq):
+    """statements printing length and every element of array variable `var`, and the lines they must print"""
+    st = ["(println (array_length %s))" % var]
+    exp = [str(len(elems))]
+    if k.name != "res":          # the front end cannot type `(at v j)` for an array of unions: length only
+        for j, x in enumerate(elems):
+            st += show_stmts(k, "(at %s %d)" % (var, j), "%s_%d" % (uniq, j))
+            exp.append(x)
+    return st, exp
+
+
+def p_case(name, pname, kname, dname, order, n, seed):
+    """one case: helper functions, the case function `name(i)`, lines it must print, helpers needed"""
+    k = KIND[kname]
+    T = k.T
+    pk, _pb, ppy, pneeds = PRODUCERS[pname]
+    dk, dexpr, dpy, dneeds = DERIVED[dname]
+    src_e = ppy(k, seed, n)
+    der_e = dpy(k, src_e)
+    P = "(p_%s_%s_%d i)" % (pname, kname, n)
+    D = lambda v: dexpr.replace("{v}", v).replace("{k}", kname)
+    fresh = _lit_expr(k, "(+ i 30)", 2)
+    fresh_e = _elems(k, seed + 30, 2)
+    pre, body, exp = [], [], []
+    if order == "der_frame":      # the derived value lives and dies in a callee frame; the source must be intact
+        pre.append("fn %s_u(v: array<%s>) -> int {\n    let d: array<%s> = %s\n    return (array_length d)\n}\n" % (name, T, T, D("v")))
+        body += ["let src: array<%s> = %s" % (T, P), "(println (%s_u src))" % name, "(println (churn i))"]
+        exp += [str(len(der_e)), str(churn_py(seed))]
+        st, e = read_array(k, "src", src_e, "s"); body += st; exp += e
+    elif order == "src_frame":    # the source is a local of a callee that returns the derived value
+        pre.append("fn %s_m(i: int) -> array<%s> {\n    let v: array<%s> = %s\n    let d: array<%s> = %s\n    return d\n}\n" % (name, T, T, P, T, D("v")))
+        body += ["let d: array<%s> = (%s_m i)" % (T, name), "(println (churn i))"]
+        exp += [str(churn_py(seed))]
+        st, e = read_array(k, "d", der_e, "d"); body += st; exp += e
+    elif order == "der_set":      # the derived value is overwritten while the source lives on
+        body += ["let src: array<%s> = %s" % (T, P), "let mut d: array<%s> = %s" % (T, D("src")), "set d %s" % fresh, "(println (churn i))"]
+        exp += [str(churn_py(seed))]
+        st, e = read_array(k, "src", src_e, "s"); body += st; exp += e
+        st, e = read_array(k, "d", fresh_e, "d"); body += st; exp += e
+    elif order == "src_set":      # the source variable is overwritten while the derived value lives on
+        body += ["let mut src: array<%s> = %s" % (T, P), "let d: array<%s> = %s" % (T, D("src")), "set src %s" % fresh, "(println (churn i))"]
+        exp += [str(churn_py(seed))]
+        st, e = read_array(k, "d", der_e, "d"); body += st; exp += e
+        st, e = read_array(k, "src", fresh_e, "s"); body += st; exp += e
+    elif order == "src_temp":     # the source is never held by anything but the operand stack
+        body += ["let d: array<%s> = %s" % (T, D(P)), "(println (churn i))"]
+        exp += [str(churn_py(seed))]
+        st, e = read_array(k, "d", der_e, "d"); body += st; exp += e
+    elif order == "both":         # control: both stay alive
+        body += ["let src: array<%s> = %s" % (T, P), "let d: array<%s> = %s" % (T, D("src")), "(println (churn i))"]
+        exp += [str(churn_py(seed))]
+        st, e = read_array(k, "d", der_e, "d"); body += st; exp += e
+        st, e = read_array(k, "src", src_e, "s"); body += st; exp += e
+    else:
+        raise common.HarnessError(order)
+    fn = "".join(pre) + "fn %s(i: int) -> int {\n%s    return 0\n}\n" % (name, "".join("    %s\n" % l for l in body))
+    needs = set((kname, h) for h in pneeds + dneeds)
+    needs.add(("P", pname, kname, n))
+    return {"name": name, "seed": seed, "text": fn, "expect": exp, "needs": needs,
+            "desc": "P producer=%s kind=%s derived=%s order=%s n=%d" % (pname, kname, dname, order, n),
+            "dims": ("P", pname, kname, dname, order, n)}
+
+
+def p_cases(tier):
+    lens = (3,) if tier == "quick" else (0, 1, 3, 9)
+    out = []
+    for n in lens:
+        for pname, (pk, _b, _py, _n) in PRODUCERS.items():
+            for k in KINDS:
+                if pk is not None and k.name not in pk:
+                    continue
+                for dname, (dk, _e, _dpy, _dn) in DERIVED.items():
+                    if dk is not None and k.name not in dk:
+                        continue
+                    for order in ORDERS:
+                        out.append((pname, k.name, dname, order, n))
+    return out
+
+
+# -- layer T: access form x payload kind x holder of the accessed value (temporary / variable / parameter / dead frame) x sink
+T_EXTRA = """fn mkhm(i: int) -> HashMap<string, string> {
+    let hm: HashMap<string, string> = (map_new)
+    (map_put hm "k" (mkstr i))
+    (map_put hm (mkstr i) "other")
+    return hm
+}
+fn mkcloi(i: int) -> fn(int) -> int {
+    let s: string = (mkstr i)
+    let v: array<string> = [s, (+ s "!")]
+    fn geti(j: int) -> int { return (+ (* 100 (str_length (at v 1))) (+ (str_length s) j)) }
+    return geti
+}
+"""
+
+# access form: name -> (kinds or None, holder type, holder maker (seed expr -> expr), access (holder expr -> expr) or None
+#                      for the match form, result ("k" = payload kind, "str", "int", "H"), py(k, seed) -> shown, helper keys,
+#                      holders it supports or None)
+ACCESS = {
+    "field":    (None, "H_{k}", "(mkh_{k} {s})", "{E}.v", "k", lambda k, i: k.py(i), ("H",), None),
+    "tail":     (None, "H_{k}", "(mkh_{k} {s})", "{E}.tail", "str", lambda k, i: "tail-%d" % i, ("H",), None),
+    "nested":   (None, "N_{k}", "(mkn_{k} {s})", "{E}.h.v", "k", lambda k, i: k.py(i), ("H", "N"), None),
+    "nested_z": (None, "N_{k}", "(mkn_{k} {s})", "{E}.z", "str", lambda k, i: "zed-%d" % i, ("H", "N"), None),
+    "inner":    (None, "N_{k}", "(mkn_{k} {s})", "{E}.h", "H", lambda k, i: k.py(i), ("H", "N"), None),
+    "tup0":     (None, "({T}, int)", "(mkt0_{k} {s})", "{E}.0", "k", lambda k, i: k.py(i), ("t0",), None),
+    "tup1":     (None, "(int, {T})", "(mkt1_{k} {s})", "{E}.1", "k", lambda k, i: k.py(i), ("t1",), None),
+    "match_a":  (None, "U_{k}", "(mku_{k} (* 2 {s}))", None, "k", lambda k, i: k.py(2 * i), ("U",), None),
+    "match_b":  (None, "U_{k}", "(mku_{k} (+ 1 (* 2 {s})))", None, "k", lambda k, i: k.py(2 * i + 1), ("U",), None),
+    "pop":      (None, "array<{T}>", "(p_lit_{k}_3 {s})", "(array_pop {E})", "k", lambda k, i: k.py(i + 2), (), ("var", "param", "frame")),
+    "hm_get":   (("str",), "HashMap<string, string>", "(mkhm {s})", "(map_get {E} \"k\")", "k", lambda k, i: k.py(i), (), None),
+    "call":     (("clo",), "fn(int) -> int", "(mkcloi {s})", "({E} 7)", "int", lambda k, i: str(100 * (len(_S(i)) + 1) + len(_S(i)) + 7), (), ("temp", "var", "frame")),
+}
+# element of an array returned by every array producer: filled in by t_cases (access "elem0:<producer>" / "elemN:<producer>")
+HOLDERS = ("temp", "var", "param", "frame")
+SINKS = ("let", "arr", "arg")
+
+
+def t_case(name, aname, kname, holder, sink, seed):
+    k = KIND[kname]
+    needs = set()
+    if aname.startswith("elem"):
+        which, pname = aname.split(":")
+        j = 0 if which == "elem0" else 2
+        ppy = PRODUCERS[pname][2]
+        HT, maker, acc, res = "array<{T}>", "(p_%s_{k}_3 {s})" % pname, "(at {E} %d)" % j, "k"
+        py = lambda kk, i: ppy(kk, i, 3)[j]
+        hk = PRODUCERS[pname][3]
+        needs.add(("P", pname, kname, 3))
+    else:
+        _ks, HT, maker, acc, res, py, hk, _hs = ACCESS[aname]
+        if aname == "pop":
+            needs.add(("P", "lit", kname, 3))
+    for h in hk:
+        needs.add((kname, h))
+    sub = lambda t, E="", sd="": t.replace("{k}", kname).replace("{T}", k.T).replace("{E}", E).replace("{s}", sd)
+    HT = sub(HT)
+    if res == "k":
+        RT, rk = k.T, k
+    elif res == "str":
+        RT, rk = "string", KIND["str"]
+    elif res == "int":
+        RT, rk = "int", KIND["int"]
+    else:
+        RT, rk = "H_" + kname, None
+    shown = py(k, seed)
+
+    def show(var, uniq):
+        if res == "H":
+            return show_stmts(k, var + ".v", uniq) + ["(println %s.tail)" % var], [shown, "tail-%d" % seed]
+        if res == "int":
+            return ["(println %s)" % var], [shown]
+        return show_stmts(rk, var, uniq), [shown]
+
+    def access(E, seed_expr):
+        """statements that leave the accessed value in x (or xs for the array sink)"""
+        if acc is None:       # union field of a value matched in place
+            return ["let mut x: %s = %s" % (RT, k.mk("(+ %s 40)" % seed_expr)),
+                    "match %s {\n        A(a) => { set x a.v }\n        B(b) => { set x b.w }\n    }" % E]
+        a = sub(acc, E)
+        if sink == "arr":
+            return ["let xs: array<%s> = [%s]" % (RT, a), "let x: %s = (at xs 0)" % RT]
+        if sink == "arg":
+            return ["let x: %s = (idr_%s %s)" % (RT, name, a)]
+        return ["let x: %s = %s" % (RT, a)]
+
+    pre, body, exp = [], [], []
+    if sink == "arg":
+        pre.append("fn idr_%s(y: %s) -> %s { return y }\n" % (name, RT, RT))
+    mk_i = sub(maker, sd="i")
+    if holder == "temp":
+        body += access(mk_i, "i")
+    elif holder == "var":
+        body += ["let h: %s = %s" % (HT, mk_i)] + access("h", "i")
+    elif holder == "param":
+        pre.append("fn %s_g(h: %s, i: int) -> %s {\n%s    return x\n}\n" % (name, HT, RT, "".join("    %s\n" % l for l in access("h", "i"))))
+        body += ["let x: %s = (%s_g %s i)" % (RT, name, mk_i)]
+    elif holder == "frame":
+        pre.append("fn %s_g(i: int) -> %s {\n    let h: %s = %s\n%s    return x\n}\n" % (name, RT, HT, mk_i, "".join("    %s\n" % l for l in access("h", "i"))))
+        body += ["let x: %s = (%s_g i)" % (RT, name)]
+    else:
+        raise common.HarnessError(holder)
+    body.append("(println (churn i))")
+    exp.append(str(churn_py(seed)))
+    st, e = show("x", "x"); body += st; exp += e
+    if holder == "var" and aname not in ("pop", "call") and acc is not None:
+        # control: the holder is still alive, the same access must give the same value again
+        body.append("let x2: %s = %s" % (RT, sub(acc, "h")))
+        st, e = show("x2", "y"); body += st; exp += e
+    fn = "".join(pre) + "fn %s(i: int) -> int {\n%s    return 0\n}\n" % (name, "".join("    %s\n" % l for l in body))
+    return {"name": name, "seed": seed, "text": fn, "expect": exp, "needs": needs,
+            "desc": "T access=%s kind=%s holder=%s sink=%s" % (aname, kname, holder, sink),
+            "dims": ("T", aname, kname, holder, sink)}
+
+
+# combinations the front end does not type (found by trying every one; kept explicit so that the enumeration cannot
+# shrink silently): a union inside a union, `(at v j)` / array_pop of an array of unions, a closure or union through
+# an array literal / generic position
+def t_supported(aname, kname, holder, sink):
+    if kname == "res" and (aname.startswith("match") or aname.startswith("elem") or aname in ("pop", "tup0", "tup1")):
+        return False
+    if kname == "res" and sink == "arr":
+        return False
+    if kname == "clo" and sink == "arg" and ACCESS.get(aname, (0, 0, 0, 0, "k"))[4] in ("k", "H") and aname != "call":
+        return aname in ("inner",)       # a function-typed argument must be a name; H_clo is a struct and passes
+    if aname in ("tup0", "tup1") and holder == "temp":
+        return sink == "arr"             # `(f i).0` is typed int outside an array literal
+    if aname.startswith("elem") and holder == "temp":
+        return sink == "arg" and kname != "clo"     # `(at (f i) j)` has no type of its own: only an argument position takes it
+    return True
+
+
+def t_cases(tier):
+    out = []
+    forms = list(ACCESS) + ["%s:%s" % (w, p) for p in PRODUCERS for w in ("elem0", "elemN")]
+    for aname in forms:
+        if aname.startswith("elem"):
+            pk = PRODUCERS[aname.split(":")[1]][0]
+            kinds, holders = pk, None
+        else:
+            kinds, holders = ACCESS[aname][0], ACCESS[aname][7]
+        for k in KINDS:
+            if kinds is not None and k.name not in kinds:
+                continue
+            for holder in HOLDERS:
+                if holders is not None and holder not in holders:
+                    continue
+                for sink in SINKS:
+                    if aname.startswith("match") and sink != "let":
+                        continue
+                    if not t_supported(aname, k.name, holder, sink):
+                        continue
+                    out.append((aname, k.name, holder, sink))
+    return out
+
+
+def shape_cases(tier):
+    """all P and T cases with their names and seeds (three-digit seeds: every built string has the same length)"""
+    cases = []
+    for dims in p_cases(tier):
+        idx = len(cases)
+        cases.append(p_case("c%d" % idx, *dims, seed=100 + (idx * 7) % 790))
+    for dims in t_cases(tier):
+        idx = len(cases)
+        cases.append(t_case("c%d" % idx, *dims, seed=100 + (idx * 7) % 790))
+    return cases
+
+
+def shape_program(cases):
+    """one program holding the given cases: prelude, the helpers they need (once), the cases, a main that runs each
+    case after printing its marker"""
+    helpers, prods = [], []
+    seen = set()
+    for c in cases:
+        for nd in sorted(c["needs"], key=str):
+            if nd in seen:
+                continue
+            seen.add(nd)
+            if nd[0] == "P":
+                for h in PRODUCERS[nd[1]][3]:
+                    if (nd[2], h) not in seen:
+                        seen.add((nd[2], h))
+                        helpers.append(kind_helpers(KIND[nd[2]])[h])
+                prods.append(producer_fn(nd[1], KIND[nd[2]], nd[3]))
+            else:
+                if nd[1] == "N" and (nd[0], "H") not in seen:
+                    seen.add((nd[0], "H"))
+                    helpers.append(kind_helpers(KIND[nd[0]])["H"])
+                helpers.append(kind_helpers(KIND[nd[0]])[nd[1]])
+    # `ints` is kind independent: keep one copy
+    uniq, hs = set(), []
+    for h in helpers:
+        if h not in uniq:
+            uniq.add(h)
+            hs.append(h)
+    main = "".join('    (println "@@%s")\n    (println (%s %d))\n' % (c["name"], c["name"], c["seed"]) for c in cases)
+    return (PRE2 + T_EXTRA + "".join(hs) + "".join(prods) + "".join(c["text"] for c in cases) +
+            "fn main() -> int {\n%s    return 0\n}\n" % main)
+
+
+def shape_expected(cases):
+    out = []
+    for c in cases:
+        out.append("@@" + c["name"])
+        out += c["expect"]
+        out.append("0")
+    return out
+
+
+def split_sections(text):
+    sec, cur = {}, None
+    for l in text.split("\n"):
+        if l.startswith("@@"):
+            cur = l[2:]
+            sec[cur] = []
+        elif cur is not None:
+            sec[cur].append(l)
+    for k in sec:
+        while sec[k] and sec[k][-1] == "":
+            sec[k].pop()
+    return sec
+
+
 # ----------------------------------------------------------------------------- running
 _ST = {}
 
@@ -246,6 +765,36 @@ def parse(out):
         elif l.startswith("CRASH ") or l.startswith("LOADFAIL "):
             crashes[l.split()[1]] = l
     return res, fails, crashes
+
+
+def _read(path):
+    try:
+        with open(path, errors="replace") as f:
+            return f.read()
+    except OSError:
+        return ""
+
+
+def shape_replay(case, work, fuel):
+    """compile and run one value-shape case as a program of its own; one-line verdict + details"""
+    src = os.path.join(work, "alone_%s.nano" % case["name"])
+    with open(src, "w") as f:
+        f.write(shape_program([case]))
+    _s, out, rc, msg = _compile((src, src[:-5] + ".nvm"))
+    if rc != 0:
+        raise common.HarnessError("single case does not compile: %s: %s" % (case["desc"], msg))
+    if os.path.exists(out + ".out"):
+        os.unlink(out + ".out")
+    _f, _rc, o, e = _probe(("auditout", fuel, [out]))
+    res, fails, crashes = parse(o)
+    got = split_sections(_read(out + ".out")).get(case["name"])
+    if out in crashes:
+        return "reproduced alone: VM run aborted (%s)\n%s" % (asan_summary(e), e[-6000:])
+    if out in fails:
+        return "reproduced alone: %s\n" % fails[out][0]
+    if got != case["expect"] + ["0"]:
+        return "reproduced alone: printed %r, must print %r\n" % (got, case["expect"] + ["0"])
+    return "not reproduced alone (only inside its batch)\n"
 
 
 def asan_summary(err):
@@ -284,6 +833,16 @@ def run(tier):
         jobs.append((p, p[:-5] + ".nvm"))
         srcinfo[p[:-5] + ".nvm"] = ("L", cases[bi:bi + LB], bi)
 
+    # value-shape layers P and T (one function per case, expected output known)
+    vcases = shape_cases(tier)
+    VB = 60
+    for bi in range(0, len(vcases), VB):
+        p = os.path.join(work, "v%05d.nano" % bi)
+        with open(p, "w") as f:
+            f.write(shape_program(vcases[bi:bi + VB]))
+        jobs.append((p, p[:-5] + ".nvm"))
+        srcinfo[p[:-5] + ".nvm"] = ("V", vcases[bi:bi + VB], bi)
+
     def compile_all(jobs):
         ok = []
         for src, out, rc, msg in common.pmap(_compile, jobs, chunksize=2):
@@ -291,8 +850,8 @@ def run(tier):
                 ok.append(out)
             else:
                 kind, items, bi = srcinfo[out]
-                if kind == "H":
-                    raise common.HarnessError("layer H program does not compile (%s): %s" % (src, msg))
+                if kind in ("H", "V"):
+                    raise common.HarnessError("layer %s program does not compile (%s): %s" % (kind, src, msg))
                 # enumerator batch holding a case the front end refuses (C02's known finding): split it
                 if len(items) == 1:
                     rep.count("cases_not_accepted_by_front_end")
@@ -308,9 +867,14 @@ def run(tier):
         return ok
 
     mods = compile_all(jobs)
-    common.log("compiled %d modules (%d H sequences, %d enumerator cases)" % (len(mods), len(seqs), len(cases)))
+    common.log("compiled %d modules (%d H sequences, %d enumerator cases, %d value-shape cases)" % (len(mods), len(seqs), len(cases), len(vcases)))
 
-    chunks = [("audit", fuel, mods[i:i + 4]) for i in range(0, len(mods), 4)]
+    vmods = [m for m in mods if srcinfo[m][0] == "V"]
+    omods = [m for m in mods if srcinfo[m][0] != "V"]
+    chunks = [("audit", fuel, omods[i:i + 4]) for i in range(0, len(omods), 4)] + [("auditout", fuel, vmods[i:i + 2]) for i in range(0, len(vmods), 2)]
+    vbad = {}          # cause key -> [(case, what)]
+    vlines = 0
+    vdistinct = set()
     total_steps = total_audits = 0
     maxreach = 0
     nprog = 0
@@ -332,6 +896,12 @@ def run(tier):
                     pre = parse(r1[2])[1].get(f, [])
                     if pre:        # the audit saw the broken invariant before the run died: say where
                         sig += "; first audit failure: " + pre[0].split(" ", 2)[2][:300]
+                    if kind == "V":     # the last marker printed says which case was running
+                        sec = split_sections(_read(f + ".out"))
+                        last = [c for c in items if c["name"] in sec]
+                        if last:
+                            vbad.setdefault("crash:" + re.sub(r"\d+", "N", asan_summary(r1[3]))[:120], []).append((last[-1], "VM run aborted: " + sig))
+                            continue
                     rep.violation("crash:" + re.sub(r"\d+", "N", sig)[:160], {"program.nano": src, "module.nvm": open(f, "rb").read(), "stderr.txt": r1[3][-20000:], "stdout.txt": r1[2][-4000:]},
                                   "VM run aborted (%s): %s" % (crashes.get(f, "no result"), sig),
                                   "# build /repo with clang -fsanitize=address -DNANOLANG_VERIF, then: bin/nano_virt program.nano --run")
@@ -342,6 +912,26 @@ def run(tier):
                 raise common.HarnessError("fuel exhausted on %s" % f)
             if r["rc"] != 0:
                 raise common.HarnessError("enumerated program fails at run time (rc=%d): %s" % (r["rc"], f))
+            if kind == "V":
+                sec = split_sections(_read(f + ".out"))
+                for c in items:
+                    got = sec.get(c["name"])
+                    want = c["expect"] + ["0"]
+                    vlines += len(want)
+                    vdistinct.update(want)
+                    if got == want:
+                        continue
+                    if got is None:
+                        raise common.HarnessError("case %s of %s printed nothing" % (c["name"], f))
+                    fl = [l for l in got if l.startswith("!!FAIL")]
+                    if fl:
+                        m = re.search(r"kind=(\S+) (.*)", fl[0])
+                        vbad.setdefault("audit:%s:%s" % (m.group(1), re.sub(r"\d+", "N", m.group(2))[:80]), []).append((c, "heap invariant broken (%s): %s" % (m.group(1), m.group(2))))
+                    else:
+                        d = [(a, b) for a, b in zip(want, got) if a != b]
+                        a, b = d[0] if d else ("%d lines" % len(want), "%d lines" % len(got))
+                        vbad.setdefault("value:%s:%s" % (c["dims"][0], c["dims"][1]), []).append((c, "printed %r where %r is the value it read" % (b[:60], a[:60])))
+                continue
             if f in fails:
                 first = fails[f][0]
                 m = re.search(r"fn=(\S+) ip=\d+ kind=(\S+) (.*)", first)
@@ -353,6 +943,18 @@ def run(tier):
                 rep.violation(key, {"program.nano": src, "module.nvm": open(f, "rb").read(), "fails.txt": "\n".join(fails[f]) + "\n"},
                               "heap invariant broken (%s) in %s%s: %s" % (kind2, fn, what, detail),
                               "# asan build with -DNANOLANG_VERIF; heap_probe audit 3000000 module.nvm (vf/probes/heap_probe.c)")
+    for key in sorted(vbad):
+        lst = vbad[key]
+        # replay the first case of this cause alone (its own program), twice: reproducible and minimal
+        c0, what0 = lst[0]
+        alone = shape_replay(c0, work, fuel)
+        if alone != shape_replay(c0, work, fuel):
+            raise common.HarnessError("case %s does not behave the same when replayed alone twice" % c0["desc"])
+        listing = "".join("%s: %s\n" % (c["desc"], w) for c, w in lst)
+        rep.violation("shape:" + key, {"program.nano": shape_program([c0]), "expected.txt": "\n".join(shape_expected([c0])) + "\n",
+                                        "failing_cases.txt": listing, "alone.txt": alone},
+                      "%s: %s (%d case(s) of the value-shape layers, e.g. %s; alone: %s)" % (c0["desc"], what0, len(lst), ", ".join(sorted(set(c["desc"].split(" ", 1)[1] for c, _w in lst[1:4]))), alone.splitlines()[0] if alone else "?"),
+                      "# asan build with -DNANOLANG_VERIF; nano_virt program.nano --emit-nvm -o m.nvm; heap_probe auditout 3000000 m.nvm; diff expected.txt m.nvm.out")
     rep.count("states", nprog)
     rep.count("transitions", total_steps)
     rep.count("traces_validated_against_impl", len(mods))
@@ -362,6 +964,19 @@ def run(tier):
     rep.coverage["enumerator_cases"] = len(cases)
     rep.sample({"heap_op_sequence": list(seqs[len(seqs) // 2]), "statements": [OPS[o][0] for o in seqs[len(seqs) // 2]]})
     rep.sample({"heap_op_sequence": list(seqs[-1])})
+    npc = sum(1 for c in vcases if c["dims"][0] == "P")
+    ntc = len(vcases) - npc
+    rep.coverage["shape_cases_P_producer_x_kind_x_derived_x_order"] = npc
+    rep.coverage["shape_cases_T_access_x_kind_x_holder_x_sink"] = ntc
+    rep.coverage["shape_printed_values_compared"] = vlines
+    rep.coverage["shape_distinct_expected_lines"] = len(vdistinct)
+    rep.coverage["shape_cases_failing"] = sum(len(v) for v in vbad.values())
+    for c in (vcases[npc // 3], vcases[npc + ntc // 2]):
+        rep.sample({"shape_case": c["desc"], "function": c["text"], "must_print": c["expect"]})
+    if tier == "quick" and (npc < 8000 or ntc < 3000) or tier != "quick" and (npc < 30000 or ntc < 3000):
+        raise common.HarnessError("value-shape layers smaller than expected: P=%d T=%d" % (npc, ntc))
+    if not vbad and (vlines < 5 * len(vcases) or len(vdistinct) < 2000):
+        raise common.HarnessError("value-shape layers look vacuous: %d lines compared, %d distinct" % (vlines, len(vdistinct)))
 
     # ---- churn family
     names = [o for o in OPS if not OPS[o][1]]
